@@ -373,14 +373,17 @@ def splitUnderscores (s : Str) : List Str :=
     | c :: r, cur => if c == '_' then cur.reverse :: go r [] else go r (c :: cur)
   go s []
 
+/-- an optional sign in front of a number text -/
+def signSplit : Str → Bool × Str
+  | '-' :: u => (true, u)
+  | '+' :: u => (false, u)
+  | u => (false, u)
+
 /-- Python's `int(text)` on the key of a value table: blanks at the ends, an optional sign, ASCII digits, single underscores between
 digits (digits of other scripts are outside the model) -/
 def pyIntKey (s : Str) : Option Int :=
   let t := stripWs s
-  let body : Bool × Str := match t with
-    | '-' :: u => (true, u)
-    | '+' :: u => (false, u)
-    | u => (false, u)
+  let body : Bool × Str := signSplit t
   let groups := splitUnderscores body.2
   if groups.all (fun g => !g.isEmpty && g.all isDigit) then
     (digitsToNat groups.flatten).map fun n => if body.1 then -(n : Int) else (n : Int)
@@ -884,5 +887,28 @@ def WFrame.expectA (f : WFrame) (k : Nat × Bool) : RFrame :=
 /-- the attribute lines of a frame and of its signals are well formed and numeric where their definitions say so -/
 def WFrame.wfA (defs : List RDef) (f : WFrame) : Bool :=
   wfAttrs defs .frame (.frame f.bo.id) f.attrs && f.sigs.all fun s => wfAttrs defs .signal (.signal f.bo.id s.sg.name) s.attrs
+
+/-! ## the value tables of the matrix: `VAL_TABLE_` lines between the `BU_:` line and the frame section -/
+
+structure WTable where
+  name : Str
+  entries : List (Nat × Str)      -- (the writer prints the keys of the dictionary with `str`; negative keys are outside this envelope)
+  deriving Repr, DecidableEq, Inhabited
+
+def WTable.line (t : WTable) : VtLine := ⟨t.name, t.entries.map fun e => (natDigits e.1, e.2)⟩
+
+/-- the whole file: `writeCoreF` with the value tables of the matrix -/
+def writeCoreH (es : List WEcu) (ts : List WTable) (ds : List DefLine) (dds : List DefDefLine) (ga : List (Str × Str)) (fs : List WFrame) :
+    List Str :=
+  [renderBu (es.map (·.name)), []] ++ writeStmts (ts.map fun t => .vt t.line) ++ [[]] ++ writeFrames (fs.map WFrame.block) ++
+  writeFile ((fs.flatMap WFrame.txStmts ++ fs.flatMap WFrame.cmStmts ++ fs.flatMap WFrame.sigCmStmts ++ ecuCmStmts es) ++
+    ((defStmts ds ++ defdefStmts dds ++ ecuBaStmts es ++ globalBaStmts ga) ++
+     ((fs.flatMap WFrame.baStmts ++ fs.flatMap WFrame.sigBaStmts) ++
+      (fs.flatMap WFrame.valStmts ++ fs.flatMap WFrame.valtypeStmts ++ fs.flatMap WFrame.grpStmts ++ fs.flatMap WFrame.mulStmts))))
+
+/-- tables: identifier-like names, pairwise different; texts the statement can carry; pairwise different keys -/
+def wfTables (ts : List WTable) : Bool :=
+  ts.all (fun t => isIdent t.name && t.entries.all (fun e => wfText e.2) && decide ((t.entries.map (·.1)).Nodup)) &&
+  decide ((ts.map (·.name)).Nodup)
 
 end CanVerif.Dbc
